@@ -139,3 +139,54 @@ theorem read_envelopeJson (e : Envelope) : readEnvelope (envelopeJson e) = some 
     simp
 
 end LV.EnvelopeJson
+
+namespace LV.EnvelopeJson
+open LV LV.Transports
+
+theorem escape_length (s : Bytes) : (s.flatMap jsonEscapeByte).length ≤ 2 * s.length := by
+  induction s with
+  | nil => simp
+  | cons b bs ih =>
+    have hb : (jsonEscapeByte b).length ≤ 2 := by
+      unfold jsonEscapeByte; split
+      · simp
+      · split <;> simp
+    simp only [List.flatMap_cons, List.length_append, List.length_cons]
+    omega
+
+theorem jsonString_length (s : Bytes) : (jsonString s).length ≤ 2 * s.length + 2 := by
+  have := escape_length s
+  simp only [jsonString, List.length_append, List.length_cons, List.length_nil]
+  omega
+
+theorem joinComma_length (ts : List Bytes) :
+    (joinComma (ts.map jsonString)).length ≤ 2 * (ts.map List.length).sum + 3 * ts.length := by
+  induction ts with
+  | nil => simp [joinComma]
+  | cons t ts ih =>
+    have ht := jsonString_length t
+    cases ts with
+    | nil => simp only [List.map_cons, List.map_nil, joinComma, List.sum_cons, List.sum_nil, List.length_cons, List.length_nil]; omega
+    | cons u us =>
+      simp only [List.map_cons, joinComma, List.length_append, List.length_cons, List.length_nil, List.sum_cons] at ih ⊢
+      omega
+
+/-- the envelope file is linear in the envelope: at most twice the addresses, three octets per recipient and 42 more -/
+theorem envelopeJson_linear (e : Envelope) :
+    (envelopeJson e).length ≤ 2 * ((e.to.map List.length).sum + (e.from?.map List.length).getD 0) + 3 * e.to.length + 42 := by
+  obtain ⟨f, to⟩ := e
+  have hj := joinComma_length to
+  have k1 : (str "{\"forward_path\":[").length = 17 := by decide
+  have k2 : (str "],\"reverse_path\":").length = 17 := by decide
+  have k3 : (str "}").length = 1 := by decide
+  have k4 : (str "null").length = 4 := by decide
+  cases f with
+  | none =>
+    simp only [envelopeJson, List.length_append, k1, k2, k3, k4, Option.map_none, Option.getD_none]
+    omega
+  | some fa =>
+    have hf := jsonString_length fa
+    simp only [envelopeJson, List.length_append, k1, k2, k3, Option.map_some, Option.getD_some]
+    omega
+
+end LV.EnvelopeJson
